@@ -261,7 +261,8 @@ def run(prop, tier, replay):
         use = ident if prop == "C02" else outc + ident[::9]
         rng.shuffle(use)
         confc = [c for c in cases if c.get("conf")] if prop == "C02" else []
-        use = [c for c in use if not c.get("conf")]
+        sarc = [c for c in cases if c.get("sar")] if prop == "C02" else []
+        use = [c for c in use if not c.get("conf") and not c.get("sar")]
         if tier == "quick":
             items = [c for c in use if c["c"]["imp"]["extras"] and len(c["c"]["imp"]["extras"]) >= 2 and c["c"]["authz"]["userextras"] == "allow" and c["c"]["impOther"] == []] if prop == "C02" else []
             # every authenticated identity forwarded as itself (no impersonation requested) is always part of the sample
@@ -297,6 +298,23 @@ def run(prop, tier, replay):
                     steps.append(request_for(rid, c["c"], rng))
                     case_of[(str(sid), rid)] = c
                 scs.append({"id": sid, "stubs": 3, "tokens": tokens(confc), "authz": authz_rules(confc[0]["c"]), "authzDefault": "deny", "steps": steps})
+        if sarc and not replay:
+            # sibling requests through ONE gateway with the REAL SubjectAccessReview authorizer (10 min decision cache): allowed ones first,
+            # then every order; the cluster denies exactly the items the cases name
+            deny = {vlib.canon(c["c"]["denyItem"]): c["c"]["denyItem"] for c in sarc if c["c"]["denyItem"]["res"]}
+            rules = [{"resource": d["res"], "name": d["name"], "sub": d["sub"], "decision": "deny"} for d in deny.values()]
+            order = [c for c in sarc if not c["c"]["denyItem"]["res"]] + [c for c in sarc if c["c"]["denyItem"]["res"]]
+            for rep in range(3):
+                o = list(sarc)
+                random.Random(seed * 17 + rep).shuffle(o)
+                order += o
+            sid = 6000
+            steps = prelude()
+            for k, c in enumerate(order):
+                rid = "q%d" % k
+                steps.append(request_for(rid, c["c"], rng))
+                case_of[(str(sid), rid)] = c
+            scs.append({"id": sid, "stubs": 3, "tokens": tokens(sarc), "authz": rules, "authzDefault": "allow", "sarAuth": True, "ttlOkMs": 600000, "ttlFailMs": 600000, "steps": steps})
         for key, cs in groups.items():
             for b in range(0, len(cs), 150):
                 sid = len(scs) + 1
